@@ -20,3 +20,14 @@ package explorer
 //@   overflow: assumed
 //@   modifies *
 //@   ensures[every_completed_scan_starts_from_empty] err == nil ==> calls("hierarchicalIndex.clear") == old(calls("hierarchicalIndex.clear")) + 1
+
+// scanFile (property C29: the listing agrees with the stored names): a storage file whose stored
+// name has at least three "/"-separated parts -- sanctuary, realm and a swamp part that may itself
+// contain "/" -- is listed, never skipped (strings.SplitN / strings.Split are assumed to behave as
+// documented; U_sepcount(s, sep) = number of separators in s). Stated for the path on which the
+// name comes from the V3 header area; the legacy fallback assigns the name inside a callback.
+//@ func (*Explorer).scanFile(e, filePath) (detail, err)
+//@   property C29
+//@   overflow: assumed
+//@   modifies *
+//@   ensures[a_stored_name_with_three_or_more_parts_is_listed] err == nil && calls("FileReader.GetSwampName") == old(calls("FileReader.GetSwampName")) + 1 && calls("FileReader.ReadAllEntries") == old(calls("FileReader.ReadAllEntries")) && U_sepcount(lastret("FileReader.GetSwampName"), "/") >= 2 ==> detail != nil
